@@ -558,6 +558,106 @@ pub fn table_item(root: u64, k: u64, acc: &mut Acc, fps: &Distinct) {
     }
 }
 
+/// All Q-subsets of `0..d` as bit masks.
+fn subsets(d: u64, q: u64) -> Vec<u32> {
+    (0u32..(1u32 << d)).filter(|m| m.count_ones() as u64 == q).collect()
+}
+
+/// 4c. exhaustive enumeration for small periods: EVERY placement of exactly Q slots within the
+/// first D slots of each of five consecutive periods.  The minimum over all of them is the true
+/// supply-bound function (more than Q only adds service), the maximum drain time its true inverse.
+pub fn exhaustive_item(root: u64, k: u64, sup: &SupDesc, acc: &mut Acc, fps: &Distinct) {
+    let (q, dl, p) = sup.qdp();
+    let periods = 5usize;
+    let max_delta = (4 * p) as usize;
+    let max_dem = 3 * q;
+    let (sbf, st, st_default) = match lib_values(sup, max_delta as u64 + 1, max_dem) {
+        Some(v) => v,
+        None => return,
+    };
+    let subs = subsets(dl, q);
+    let mut idx = vec![0usize; periods];
+    let mut min_seen = vec![u64::MAX; max_delta + 1];
+    let mut drain_seen = vec![0u64; max_dem as usize + 1];
+    let mut count = 0u64;
+    loop {
+        let mut h = vec![false; periods * p as usize];
+        for (k2, i) in idx.iter().enumerate() {
+            let m = subs[*i];
+            for b in 0..dl as usize {
+                if m & (1 << b) != 0 {
+                    h[k2 * p as usize + b] = true;
+                }
+            }
+        }
+        count += 1;
+        let mins = window_minima(&h, max_delta);
+        for x in 1..=max_delta {
+            min_seen[x] = min_seen[x].min(mins[x].0);
+        }
+        for dem in 1..=max_dem {
+            if let Some((t, _)) = max_drain(&h, dem) {
+                drain_seen[dem as usize] = drain_seen[dem as usize].max(t);
+            }
+        }
+        // next placement (mixed-radix counter)
+        let mut pos = 0;
+        loop {
+            if pos == periods {
+                break;
+            }
+            idx[pos] += 1;
+            if idx[pos] < subs.len() {
+                break;
+            }
+            idx[pos] = 0;
+            pos += 1;
+        }
+        if pos == periods {
+            break;
+        }
+    }
+    acc.counters.add("runs", count);
+    acc.counters.add("runs_nontrivial", if q < p { count } else { 0 });
+    acc.counters.add("exhaustive_placements_enumerated", count);
+    acc.counters.inc("exhaustive_small_period_configs");
+    acc.counters.add("sim_ticks", count * (periods as u64) * p);
+    let fpv = hash_str(&format!("exhaustive/{}", sup));
+    fps.insert(fpv);
+    acc.digest_add(fpv ^ count);
+    let note = format!("seed={} exhaustive config={}", root, k);
+    for x in 1..=max_delta {
+        if min_seen[x] != sbf[x] {
+            acc.report(Report {
+                order: (k, 6_000_000 + x as u64),
+                key: if min_seen[x] < sbf[x] { "sbf unsound".into() } else { "sbf pessimistic".into() },
+                summary: format!(
+                    "{}: over ALL placements the minimum service in a window of length {} is {}, provided_service says {}",
+                    sup, x, min_seen[x], sbf[x]
+                ),
+                replay: replay_text("exhaustive", sup, "", &format!("delta={} minimum_over_all_placements={} provided_service={}", x, min_seen[x], sbf[x]), &note),
+            });
+            break;
+        }
+    }
+    for (name, table) in [("service_time", &st), ("default service_time", &st_default)] {
+        for dem in 1..=max_dem as usize {
+            if drain_seen[dem] != table[dem] {
+                acc.report(Report {
+                    order: (k, 7_000_000 + dem as u64),
+                    key: format!("{} {}", name, if drain_seen[dem] > table[dem] { "unsound" } else { "pessimistic" }),
+                    summary: format!(
+                        "{}: over ALL placements the longest drain time of a demand of {} is {}, {} says {}",
+                        sup, dem, drain_seen[dem], name, table[dem]
+                    ),
+                    replay: replay_text("exhaustive", sup, "", &format!("demand={} worst_drain_over_all_placements={} claimed={}", dem, drain_seen[dem], table[dem]), &note),
+                });
+                break;
+            }
+        }
+    }
+}
+
 pub fn all_configs(max_p: u64) -> Vec<SupDesc> {
     let mut v = vec![SupDesc::Dedicated];
     for p in 1..=max_p {
@@ -601,6 +701,12 @@ pub fn run_c09(opt: &Options) -> i32 {
     };
     let n_cfg = configs.len() as u64;
     let root = opt.seed;
+    // small periods: every placement, not a sample
+    let exh_configs: Vec<SupDesc> = all_configs(if opt.thorough() { 5 } else { 4 })
+        .into_iter()
+        .filter(|c| *c != SupDesc::Dedicated)
+        .collect();
+    let n_exh = exh_configs.len() as u64;
     let fin = |mut acc: Acc| -> i32 {
         let wall = t0.elapsed().as_secs_f64();
         let mut cov = Json::obj();
@@ -620,7 +726,11 @@ pub fn run_c09(opt: &Options) -> i32 {
         );
         cov.set("distinct_histories", Json::Int(fps.count() as i128));
         cov.set("configurations", Json::Int(n_cfg as i128));
-        cov.set("exhaustive_up_to_period", Json::Int(max_p as i128));
+        cov.set("sampled_all_configurations_up_to_period", Json::Int(max_p as i128));
+        cov.set(
+            "all_placements_enumerated_up_to_period",
+            Json::Int(if opt.thorough() { 5 } else { 4 }),
+        );
         cov.set("simulated_time_ticks", Json::Int(acc.counters.get("sim_ticks") as i128));
         cov.set(
             "components",
@@ -642,11 +752,15 @@ pub fn run_c09(opt: &Options) -> i32 {
         );
         out.exit_code
     };
-    run_parallel_then(n_cfg + tables, opt.jobs, 60, |k, acc, note| {
+    run_parallel_then(n_cfg + tables + n_exh, opt.jobs, 60, |k, acc, note| {
         if k < n_cfg {
             supply_item(&sh, k, acc, note)
-        } else {
+        } else if k < n_cfg + tables {
             table_item(root, k - n_cfg, acc, &fps)
+        } else {
+            let e = &exh_configs[(k - n_cfg - tables) as usize];
+            note(&format!("C09 exhaustive {}", e));
+            exhaustive_item(root, k, e, acc, &fps)
         }
     }, &fin)
 }
@@ -758,6 +872,22 @@ pub fn replay_supply(path: &str, text: &str) -> i32 {
             }
             println!("replay: no violation");
             0
+        }
+        "exhaustive" => {
+            let mut acc = Acc::default();
+            let fps = Distinct::new(10);
+            if p > 6 {
+                eprintln!("HARNESS-ERROR: exhaustive replay only for periods <= 6");
+                return 2;
+            }
+            exhaustive_item(0, 0, &sup, &mut acc, &fps);
+            match acc.reports.first() {
+                Some(r) => viol(r.summary.clone()),
+                None => {
+                    println!("replay: no violation");
+                    0
+                }
+            }
         }
         "exact" | "drain-exact" | "drain-exact-default" => {
             // recompute the adversary's best over the structured worst-case placements
